@@ -152,6 +152,11 @@ class Stream:
             parts.append(f.hdr)
             parts.append(f.wire_payload.data)
             hdr_ranges.append((pos, pos + len(f.hdr)))
+            if f.payload is None and f.mask is not None:
+                # a header declaring more than the size limit closes the connection as soon as its
+                # length field is complete: the mask key that follows is already "after the close",
+                # so the frame-boundary segmentation sends it as a segment of its own
+                bounds.append(pos + len(f.hdr) - 4)
             pos += len(f.hdr) + len(f.wire_payload.data)
             bounds.append(pos)
         parts.append(self.tail)
